@@ -5,14 +5,14 @@
    dict-based table lookup `impl_lookup`).
    Domain `wf T D f` = bpch-convention content: field widths, >= 1 time block, every time block repeats the
    tracers of the first with the same metadata, one model grid per file, one time stamp per time block, no
-   tracer twice in a time block, distinct variable names.  `tables_ok T D` = the keys of tracerinfo.dat (tracer
+   tracer twice in a time block, distinct variable names, different time stamps on different time blocks.  `tables_ok T D` = the keys of tracerinfo.dat (tracer
    numbers) and diaginfo.dat (categories) are unique (a table with a repeated key has no defined meaning in the property).
    The model describes the REPAIRED header walk (fixes/C18-one-tracer-two-times.patch: the repeated first tracer is not
    appended a second time when the repetition is also the last header) and warning (fixes/C18-warn-format.patch: more than
    48 layers only warns); the former `_refuted` theorems for these two defects are gone and the three main theorems hold
    without any excluded shape.
-   Clause (4): `impl_bpch2` = bpch2.__init__ + variable access as repaired by a06c03f (walk over EVERY block header,
-   per key the blocks in order of first appearance, FIRST matching table row, IndexError when a row is missing);
+   Clause (4): `impl_bpch2` = bpch2.__init__ + variable access as repaired by a06c03f and 78b5b3f (walk over EVERY block
+   header, per key the blocks in order of first appearance, FIRST matching table row, bpch1's fallbacks for missing rows);
    `readers_agree` = same variables (ids, names, units, SCALE, dims, nested offsets), time stamps and data. *)
 From PNC Require Import Base.Util Base.Words Gen.Bpch Model.Bpch Proofs.WordsProofs Proofs.BpchProofs Proofs.BpchPrefixProofs Proofs.BpchPrefixThm Proofs.Bpch2Proofs.
 From Coq Require Import String QArith.
@@ -88,25 +88,24 @@ Theorem C18_every_prefix : forall T D f c,
 Proof. exact prefix_open. Qed.
 Print Assumptions C18_every_prefix.
 
-(* Clause (4): for every bpch-convention file whose time blocks carry pairwise different time stamps and whose
-   categories are all in diaginfo.dat and tracer numbers offset+id all in tracerinfo.dat, the block-walking reader opens
-   the file and presents the same variables, time stamps and data as the memory-mapped one.
-   _partial: `tables_complete` (refuted below without it) and `taus_distinct` (bpch2 keys a variable's blocks by
-   (tau0, tau1): two time blocks with the same stamp collapse into one). *)
-Theorem C18_readers_agree_partial : forall T D f,
-  wf T D f = true -> tables_ok T D = true -> tables_complete T D f = true -> taus_distinct f = true ->
+(* Clause (4): for EVERY bpch-convention file and tables with unique keys the block-walking reader (as repaired by
+   a06c03f and 78b5b3f: bpch1's fallbacks for categories / tracer numbers that the tables lack) opens the file and presents
+   the same variables (ids, names, units, SCALE, dims, nested offsets), time stamps and data as the memory-mapped one.
+   No hypothesis beyond the domain: `wf` includes that different time blocks carry different time stamps (the format
+   identifies a data block by category, tracer and tau0; bpch2 keys a variable's blocks by (tau0, tau1)). *)
+Theorem C18_readers_agree : forall T D f,
+  wf T D f = true -> tables_ok T D = true ->
   exists v1 v2, impl_open T D (enc f) (4 * lenZ (enc f)) = Ok v1
                 /\ impl_bpch2 T D (enc f) (4 * lenZ (enc f)) = Ok v2
                 /\ readers_agree v1 v2.
 Proof. exact readers_agree_enc. Qed.
-Print Assumptions C18_readers_agree_partial.
+Print Assumptions C18_readers_agree.
 
-(* what bpch2 presents, in closed form (no uniqueness of table keys needed: bpch2 takes the first matching row) *)
-Theorem C18_bpch2_presents_content_partial : forall T D f,
-  wf T D f = true -> tables_complete T D f = true -> taus_distinct f = true ->
-  impl_bpch2 T D (enc f) (4 * lenZ (enc f)) = Ok (view2_of T D f).
+(* what bpch2 presents, in closed form (any tables: bpch2 takes the first matching row) *)
+Theorem C18_bpch2_presents_content : forall T D f,
+  wf T D f = true -> impl_bpch2 T D (enc f) (4 * lenZ (enc f)) = Ok (view2_of T D f).
 Proof. exact bpch2_enc. Qed.
-Print Assumptions C18_bpch2_presents_content_partial.
+Print Assumptions C18_bpch2_presents_content.
 
 (* Translation validation (tie T): reader and writer header layouts agree field by field (the writer's `dim` is
    the reader's f13+f14), pads are the record payload sizes, skip = data bytes + 8. *)
@@ -180,21 +179,12 @@ Example C18_prefix_alternatives :
   /\ impl_open C18_T C18_D (firstn 92 (enc C18_example)) 368 = Ok (view_of C18_T C18_D (first_tracers 1 C18_example)).
 Proof. vm_compute. repeat split; reflexivity. Qed.
 
-(* Without table completeness clause (4) is false: a category that has no line in diaginfo.dat is read by bpch1
-   (offset 0, documented fallback) but makes bpch2 raise IndexError.  Replays on the library
-   (finding C18-bpch2-missing-table-entry). *)
-Theorem C18_readers_agree_refuted : exists T D f,
-  wf T D f = true /\ tables_ok T D = true /\ taus_distinct f = true /\ tables_complete T D f = false
-  /\ (exists v1, impl_open T D (enc f) (4 * lenZ (enc f)) = Ok v1)
-  /\ impl_bpch2 T D (enc f) (4 * lenZ (enc f)) = Err.
-Proof.
-  exists C18_T, [(repeat 1128808781 10, 2000)], (C18_file [[C18_blk 1083129856 1 1 [1065353216]]]).
-  vm_compute. repeat split; try reflexivity. eexists. reflexivity.
-Qed.
-Print Assumptions C18_readers_agree_refuted.
-
 (* non-vacuity of the agreement theorem: the two-time, two-tracer, two-category example *)
 Example C18_agree_inhabited :
-  tables_complete C18_T C18_D C18_example = true /\ taus_distinct C18_example = true
+  taus_distinct C18_example = true
+  /\ (* a file whose category is missing from diaginfo.dat and whose tracer is missing from tracerinfo.dat: both readers fall back alike *)
+     impl_bpch2 C18_T [(repeat 1128808781 10, 2000)] (enc (C18_file [[C18_blk 1083129856 5 1 [1065353216]]])) 368
+     = Ok (view2_of C18_T [(repeat 1128808781 10, 2000)] (C18_file [[C18_blk 1083129856 5 1 [1065353216]]]))
+  /\ map v_name (s_vars (view2_of C18_T [(repeat 1128808781 10, 2000)] (C18_file [[C18_blk 1083129856 5 1 [1065353216]]]))) = [TNum 5]
   /\ s_data (view2_of C18_T C18_D C18_example) = [[[1065353216]; [1073741824]]; [[1; 2; 3; 4; 5; 6]; [7; 8; 9; 10; 11; 12]]].
 Proof. vm_compute. repeat split; reflexivity. Qed.
